@@ -792,8 +792,10 @@ def settle_fold(sub: Sub, pool: Pool, pending: list[dict[str, Any]]) -> None:
             except SyntaxError:
                 nodes = []
             for s in sorted(set(nodes), key=len):
-                if (p["layer"], s) in smallest:
-                    best = (s, smallest[(p["layer"], s)])
+                # mypyc folds through mypy.constant_fold's functions: a part mypy itself gets wrong counts for both
+                hit = next(((lay, s) for lay in (p["layer"], "mypy") if (lay, s) in smallest), None)
+                if hit:
+                    best = (s, smallest[hit])
                     break
         src, bad = (best[0], best[1]["bad"]) if best else (p["src"], p["bad"])
         key = f"fold:{p['layer']}:{bad}:{op_signature(src)}"
@@ -869,6 +871,7 @@ def run(ctx: common.Ctx) -> None:
             keep = set(conds[:: max(1, int(round(1 / scale)))]) | {a for c in combo_info for a in combo_info[c][1]}
             conds = [c for c in conds if c in keep or c in combo_info]
     pending_fold: list[dict[str, Any]] = []
+    lost: list[dict[str, Any]] = []
 
     def tasks() -> Iterator[dict[str, Any]]:
         gens = []
@@ -896,20 +899,30 @@ def run(ctx: common.Ctx) -> None:
             for t, r in pool.imap(tasks(), timeout=900):
                 if os.environ.get("VERIF_C12_DEBUG") and r.get("wall", 0) > float(os.environ["VERIF_C12_DEBUG"]):
                     print(f"slow task {t['fn']} {t.get('_tag') or t.get('_layer') or ''} wall={r.get('wall'):.1f}s", flush=True)
-                dispatch(sub, t, r, combo_info, pending_fold)
-            settle_fold(sub, pool, pending_fold)
+                dispatch(sub, t, r, combo_info, pending_fold, lost)
+        if lost:
+            ctx.extra["tasks_retried"] = len(lost)
+            with Pool(n=max(1, min(4, len(lost))), env=env, recycle_after=20) as pool2:
+                for t, r in pool2.imap(iter(lost), timeout=2400):
+                    dispatch(sub, t, r, combo_info, pending_fold, None)
+        with Pool(n=min(4, common.NCPU), env=env) as pool3:
+            settle_fold(sub, pool3, pending_fold)
     settle_reach(sub)
+    gone = ctx.extra.get("lost_tasks", {})
 
     ex = {"call": {f"<= {a} params x <= {b} actuals": True for a, b in call_exh} if scale >= 1 else {},
           "mro": {"<= 5 classes (full build)": n5_step == 1, "6 classes (direct calculate_mro)": n6_direct is None},
           "fold": {"depth 1 over the boundary leaves (size-guarded)": scale >= 1},
           "reach": {"all generated single comparisons x 16 versions x 5 platforms (direct)": scale >= 1 and not quick}}
+    for s_ in SUBS:   # a sub-space with a task that was lost twice was not enumerated completely
+        if gone.get(s_):
+            ex[s_] = {k: False for k in ex[s_]}
     ctx.extra["exhaustive_subspaces"] = ex
     ctx.exhaustive = False
     summary = {}
     # (agreeing accepts, agreeing rejects) the unchanged tree yields; a sub-monitor below 40 % of either is inconclusive
     floors = ({"call": (13800, 61000), "mro": (130000, 97000), "reach": (114000, 115000), "fold": (22900, 26500)} if quick else
-              {"call": (150000, 900000), "mro": (1500000, 2000000), "reach": (600000, 600000), "fold": (60000, 70000)})
+              {"call": (131000, 988000), "mro": (756000, 933000), "reach": (620000, 614000), "fold": (97000, 125000)})
     for s in SUBS:
         d = sub.n[s]
         summary[s] = {"evaluations": d["evaluations"], "both_accept": d["both_accept"], "both_reject": d["both_reject"],
@@ -923,20 +936,26 @@ def run(ctx: common.Ctx) -> None:
     ctx.extra["sub_monitors"] = summary
     if only != set(SUBS):
         ctx.assumptions.append(f"PARTIAL RUN: only sub-monitors {sorted(only)} (VERIF_C12_ONLY)")
-    tot_floor = {"quick": (358000, 1022000), "thorough": (3000000, 8000000)}[ctx.tier]
+    tot_floor = {"quick": (358000, 1022000), "thorough": (2630000, 6532000)}[ctx.tier]
     if ctx.floor_nontrivial < 10 ** 9:
         ctx.floor_nontrivial = int(tot_floor[0] * min(scale, 1.0) * 0.4) if only == set(SUBS) else 1
         ctx.floor_evaluations = int(tot_floor[1] * min(scale, 1.0) * 0.4) if only == set(SUBS) else 1
 
 
-def dispatch(sub: Sub, t: dict[str, Any], r: dict[str, Any], combo_info: dict[str, Any], pending_fold: list[dict[str, Any]]) -> None:
+def dispatch(sub: Sub, t: dict[str, Any], r: dict[str, Any], combo_info: dict[str, Any], pending_fold: list[dict[str, Any]],
+             lost: list[dict[str, Any]] | None = None) -> None:
     ctx = sub.ctx
     kind = t["_kind"]
     if not r.get("ok"):
         why = "timeout" if r.get("timeout") else "died" if r.get("died") else "exc"
         if why == "exc":
             raise RuntimeError(f"C12 task {t['fn']} raised in the worker: {r.get('exc')}\n{r.get('tb')}")
-        ctx.inconc(f"{kind}:runner-{why}")
+        if lost is not None:
+            lost.append(t)      # watchdog / dead worker: never a verdict; tried once more at the end
+            return
+        ctx.inconc(f"{kind}:runner-{why} (after one retry)")
+        ctx.extra.setdefault("lost_tasks", {}).setdefault("corpus" if kind == "corpus" else kind, 0)
+        ctx.extra["lost_tasks"]["corpus" if kind == "corpus" else kind] += 1
         return
     res = r["res"]
     if kind == "call":
